@@ -190,6 +190,7 @@ def exercise(c: gen.Compiled, seed: int, n_calls: int, pydantic: bool = False):
                     def __getattr__(self, k):
                         return getattr(self._ch, k)
 
+                resend = {}
                 for _ in range(n_calls):
                     route, py, card, req_t, rep_t = methods[rng.randrange(len(methods))]
                     cs, ss = card.client_streaming, card.server_streaming
@@ -210,6 +211,33 @@ def exercise(c: gen.Compiled, seed: int, n_calls: int, pydantic: bool = False):
                         # the very same message OBJECT sent several times (a retry loop, a heartbeat): [a, a, a] / [a, b, a]
                         reqs = [reqs[0]] * n_req if rng.random() < 0.5 else [reqs[i % 2] for i in range(n_req - 1)] + [reqs[0]]
                         stats["labels"].add("request_stream_repeats_one_object")
+                    sent_snapshots = None
+                    if cs and n_req >= 2 and not pingpong and rng.random() < 0.3:
+                        # one object, changed IN PLACE between the sends (append / map item / field of a nested message):
+                        # what must arrive is what the object held each time it was handed over
+                        a = reqs[0]
+                        if mutate_in_place(a, rng):
+                            import copy as _copy
+
+                            sent_snapshots = []
+
+                            def changing(a=a, n=n_req, snaps=sent_snapshots):
+                                for i in range(n):
+                                    if i:
+                                        mutate_in_place(a, rng)
+                                    snaps.append(_copy.deepcopy(a))
+                                    yield a
+
+                            reqs = [a] * n_req
+                            stats["labels"].add("request_object_mutated_in_place_between_sends")
+                    if not cs and rng.random() < 0.3 and resend.get(req_t) is not None:
+                        # a unary request object that was sent before, changed in place since
+                        a = resend[req_t]
+                        if mutate_in_place(a, rng):
+                            reqs = [a]
+                            stats["labels"].add("unary_request_resent_after_in_place_mutation")
+                    if not cs:
+                        resend[req_t] = reqs[0]
                     reps = [make_value(rep_t) for _ in range(n_rep)]
                     plan[py] = reps
                     log.clear()
@@ -229,6 +257,9 @@ def exercise(c: gen.Compiled, seed: int, n_calls: int, pydantic: bool = False):
                         shape = rng.choice(["list", "tuple", "generator", "async_iterator", "async_iterator"])
                         arg = {"list": lambda: list(reqs), "tuple": lambda: tuple(reqs), "generator": lambda: (r for r in reqs),
                                "async_iterator": lambda: _aiter(reqs)}[shape]()
+                        if sent_snapshots is not None:
+                            arg = changing() if shape != "async_iterator" else _aiter(changing())
+                            shape = "generator_mutating" if shape != "async_iterator" else "async_iterator_mutating"
                         stats["labels"].add(f"request_stream_as:{shape}")
                     else:
                         arg = reqs[0]
@@ -272,7 +303,9 @@ def exercise(c: gen.Compiled, seed: int, n_calls: int, pydantic: bool = False):
                         fails.append(("wrong_handler_invocations", where, f"{route}: handlers run {ran}, want [{py!r}]"))
                         continue
                     received = log[0][1]
-                    sent = reqs if cs else reqs[0]
+                    import copy as _copy2
+
+                    sent = (sent_snapshots if sent_snapshots is not None else reqs) if cs else reqs[0]
                     if not _same(received, sent):
                         fails.append(("request_not_intact", where, f"{route}: handler received {received!r:.200}, sent {sent!r:.200}"))
                     if py in erroring:
@@ -324,6 +357,46 @@ def _record(seen, ev):
         seen.append(event.metadata)
 
     return cb
+
+
+def mutate_in_place(msg, rng) -> bool:
+    """Change `msg` WITHOUT assigning one of its own attributes: append to a list, set a map item, or assign inside a
+    nested message. Returns False when the message type offers nothing of the kind."""
+    import dataclasses
+
+    import betterproto
+
+    if not dataclasses.is_dataclass(msg):
+        return False
+    cands = []
+    for f in dataclasses.fields(msg):
+        try:
+            v = getattr(msg, f.name)
+        except AttributeError:
+            continue
+        if isinstance(v, list) and v:
+            cands.append(("list", v))
+        elif isinstance(v, dict) and v:
+            cands.append(("dict", v))
+        elif isinstance(v, betterproto.Message) and dataclasses.is_dataclass(v):
+            for g in dataclasses.fields(v):
+                meta = betterproto.FieldMetadata.get(g)
+                if meta.proto_type in ("int32", "int64", "uint32", "uint64", "sint32", "sint64") and not meta.group and not meta.optional:
+                    cands.append(("nested", (v, g.name)))
+                    break
+    if not cands:
+        return False
+    kind, target = cands[rng.randrange(len(cands))]
+    if kind == "list":
+        target.append(target[0])
+    elif kind == "dict":
+        k = next(iter(target))
+        nk = (k + "x") if isinstance(k, str) else (not k if isinstance(k, bool) else (1 if k != 1 else 2))
+        target[nk] = target[k]
+    else:
+        v, name = target
+        setattr(v, name, 1 if getattr(v, name) != 1 else 2)
+    return True
 
 
 async def _aiter_gen(items):
